@@ -43,6 +43,8 @@ def run(ctx, rep):
     check_track_sections(ctx, rs, "instrument")
     check_dispatcher(ctx, rs)
     c, pf, order, idx, pcall = kinds_of(ctx, "instrument")
+    if pf is None:
+        pf = c.find_method("from_chart_lines") or c
     rs.inst(f"instrument kinds tried: {order}")
     if order is not None and sorted(order) != sorted(KINDS):
         from .lib import fail
@@ -51,3 +53,6 @@ def run(ctx, rep):
                             "hands the lines on unchanged", floor=10)
     from .chain import check_chain
     check_chain(ctx, rch, "instrument", strict=True)
+    rfo = rep.rule("folds", "each kind's data are folded datum by datum, in order, by that kind's own builder with its predecessor and the tempo map", floor=6)
+    from .timing import Timing as _T
+    _T(ctx).check_folds(rfo)
